@@ -170,14 +170,10 @@ def run(prog, tier):
     obs.append(struct_ob("noise-matrices", qual(ci, init), ok,
                          "S must be diag(y_err^2) and Si its elementwise inverse on the diagonal: " + why, REL, init.lineno, tier="F"))
     # slices: mean first, then covariance; labels / bounds in the same order
-    ok = (U(src.get("self.mean_slice")) == "slice(0, self.mean.n_params)"
-          and U(src.get("self.cov_slice")) == "slice(self.mean.n_params, self.n_hyperpars)"
-          and U(src.get("self.n_hyperpars")) == "self.mean.n_params + self.cov.n_params"
-          and U(src.get("self.hyperpar_labels")) == "[*self.mean.hyperpar_labels, *self.cov.hyperpar_labels]")
-    oh = prog.method("GpLinearInverter", "optimize_hyperparameters")[1]
-    ok = ok and "hp_bounds = [*self.mean.bounds, *self.cov.bounds]" in U(oh)
-    obs.append(struct_ob("slice-layout", qual(ci, init), ok,
-                         "hyper-parameter slices, labels and bounds must all be mean-first then covariance", REL, init.lineno))
+    from .gpm import mean_first_layout
+    ci_, init_, why_ = mean_first_layout(prog, "GpLinearInverter", "optimize_hyperparameters", "hp_bounds")
+    obs.append(struct_ob("slice-layout", qual(ci, init), not why_,
+                         "hyper-parameter slices, labels and bounds must all be mean-first then covariance: " + "; ".join(why_), REL, init.lineno))
 
     obs.extend(default_instance_obligations(prog, "components-not-shared", [('GpLinearInverter', '__init__')]))
 
